@@ -398,6 +398,9 @@ func verifDir() string {
 	return "/verif"
 }
 
+// ExecFresh runs one case in a fresh process of the property's child binary (cold process-wide state).
+func ExecFresh(p Property, c Case) *Violation { return execInChild(p, c, verifDir()) }
+
 // execInChild runs one case in a fresh process so that runtime fatal errors
 // and race reports can be observed.
 func execInChild(p Property, c Case, vdir string) *Violation {
